@@ -280,8 +280,8 @@ Definition delete_node (h : heap) (c : nat) : heap :=
   match get h c with
   | Some (NDir _ m) => upd h c (NDir [] m)
   | Some (NFile d k i m) =>
-      let k' := (k - 1)%Z in
-      upd h c (NFile (if Z.eqb k' 0 then [] else d) k' i m)
+      (* the data stay for the handles still open on the node *)
+      upd h c (NFile d (k - 1)%Z i m)
   | Some (NSym _ m) => upd h c (NSym [] m)
   | None => h
   end.
@@ -430,7 +430,7 @@ Definition open_file (s : fsys) (v : view) (view_ix : nat) (name : str) (flag pe
           else if has om OpenCreateExcl then (s, inl (RFail EFileExists))
           else
             let d1 := if has om OpenTruncate then [] else d in
-            let at_ := if has om OpenAppend then Z.of_nat (length d1) else 0%Z in
+            let at_ := 0%Z in      (* every new handle starts at offset 0, O_APPEND or not (Write moves to the end) *)
             (with_heap s (upd h c (NFile d1 k i m)), inr (new_handle c view_ix name at_ om))
       | Some (NDir _ m) =>
           if has om OpenCreateExcl then (s, inl (RFail EFileExists))
